@@ -75,11 +75,11 @@ def dataset_spec(draw, min_n=1, max_n=120, n=None, max_f=6, min_card=1, nonconst
             'low': draw(st.sampled_from([0, 0, 0, 7, 1000, -1000, 10**6, 5 * 10**6, 10**8]))}      # sums of a few columns stay inside int32
 
 
-def build_dataset(ds, kind, id_col=False, as_float=False):
+def build_dataset(ds, kind, id_col=False, as_float=False, cc=None):
     structure = None
     if ds['own_domains']:
         structure = [[j, list(range(100 * (j + 1), 100 * (j + 1) + ds['card']))] for j in range(ds['nf'])]
-    X = cut(kind, CC().generate_data, n_features=ds['nf'], n_samples=ds['ns'], cardinality=ds['card'],
+    X = cut(kind, (cc or CC()).generate_data, n_features=ds['nf'], n_samples=ds['ns'], cardinality=ds['card'],
             structure=structure, ensure_rep=bool(ds.get('rep')), seed=ds['seed'],
             **({'low': int(ds['low']), 'high': int(ds['low']) + 1000} if ds.get('low') else {}))
     if X.shape != (ds['ns'], ds['nf']):
@@ -138,6 +138,8 @@ def corr_case(draw):
     ds = draw(dataset_spec(min_n=3, max_n=400, nonconst=draw(st.sampled_from([True, True, False]))))
     r = draw(st.one_of(st.sampled_from(R_SPECIAL), st.floats(-0.999, 0.999, allow_nan=False),
                        st.builds(lambda a, sgn: a * sgn, st.floats(0.05, 0.95), st.sampled_from([1.0, -1.0]))))
+    if draw(st.integers(0, 9)) == 0:
+        ds['ns'] = draw(st.integers(2049, 7000))      # more rows than any internal processing block
     return {'ds': ds, 'sel': draw(selection(ds['nf'])), 'r': r, 'np_seed': draw(st.integers(0, 2**32 - 1))}
 
 
@@ -470,18 +472,29 @@ def cat_noise_case(draw):
     counts = [draw(st.integers(1, 25))] + [draw(st.integers(2, 25)) for _ in range(m - 1)]
     n = sum(counts)
     return {'ds': draw(dataset_spec(n=n, max_f=5, nonconst=draw(st.booleans()))), 'counts': counts, 'label_seed': draw(st.integers(0, 2**32 - 1)),
-            'p': draw(noise_level(n)), 'np_seed': draw(st.integers(0, 2**32 - 1)), 'as_float': draw(st.booleans())}
+            'p': draw(noise_level(n)), 'np_seed': draw(st.integers(0, 2**32 - 1)), 'as_float': draw(st.booleans()),
+            'shared_generator': draw(st.sampled_from([False, False, True]))}
 
 
 def oracle_noise_categorical(case, rec):
     kind = 'C20/noise-categorical'
-    X = build_dataset(case['ds'], kind, as_float=case['as_float'])
+    cc = CC()
+    other = None
+    if case.get('shared_generator'):
+        # one generator object produced two data sets (other value domains at the same column positions) before any noise call,
+        # and noise is applied to both: every feature is perturbed inside ITS OWN domain
+        ds2 = dict(case['ds'], own_domains=not case['ds']['own_domains'], low=(case['ds'].get('low') or 0) + 5000, seed=case['ds']['seed'] ^ 1)
+        other = build_dataset(ds2, kind, as_float=case['as_float'], cc=cc)
+        rec.cls('generator-shared-by-two-data-sets')
+    X = build_dataset(case['ds'], kind, as_float=case['as_float'], cc=cc)
     y = labels_from_counts(case['counts'], case['label_seed'])
     X0, y0 = X.copy(), y.copy()
     n, p = X.shape[0], case['p']
     budget = math.floor(p * n)
     np.random.seed(case['np_seed'])
-    Z = cut(kind, CC().generate_noise, X, y, p=p, type='categorical')
+    if other is not None:
+        cut(kind, cc.generate_noise, other, y, p=p, type='categorical')
+    Z = cut(kind, cc.generate_noise, X, y, p=p, type='categorical')
     if not isinstance(Z, np.ndarray) or Z.shape != X0.shape:
         raise Violation(f'noisy array has shape {getattr(Z, "shape", None)}, expected {X0.shape}')
     if not (np.array_equal(X, X0) and np.array_equal(y, y0)):
